@@ -137,6 +137,20 @@ impl InputFile {
         self.data.as_deref().unwrap_or_default()
     }
 
+    /// Verification hook: an input file record with the given name and `temporary` modifier.
+    #[cfg(feature = "verif")]
+    pub(crate) fn verif_new(filename: PathBuf, temporary: bool) -> Self {
+        Self {
+            original_filename: filename.clone(),
+            filename,
+            modifiers: Modifiers {
+                temporary,
+                ..Default::default()
+            },
+            data: None,
+        }
+    }
+
     #[cfg(test)]
     pub(crate) fn for_testing() -> Self {
         Self {
